@@ -20,7 +20,9 @@ META = {
              "B = MessagePack the premise is discharged: on the model of rmp / rmp-serde (diffed against the real crates by the "
              "MessagePack correspondence) MessagePack->MessagePack reproduces every stream of encodable values byte for byte, from "
              "a slice and from a reader. For B = JSON the reader half of the premise is proved on the models of serde_json's writer "
-             "and reader (what was written is read back to the same events; floats under an explicit premise on ryu), and the "
+             "and reader (what was written is read back to the same events; floats included, on the model of serde_json's "
+             "serialize_f64 / ryu in JsonFloatModel.v, for every finite binary64: C06_json_output_is_a_fixed_point_with_floats, "
+             "C06_msgpack_json_msgpack_with_floats, no premise), and the "
              "round-trip clause is proved for the pair MessagePack/JSON: MessagePack->JSON->MessagePack reproduces what "
              "MessagePack->MessagePack writes, for every stream of values JSON can carry, and in the other direction, with no "
              "premise at all, JSON->MessagePack->JSON reproduces what JSON->JSON writes (C06_json_msgpack_json; the "
@@ -38,6 +40,10 @@ META = {
         "hand-written Gallina model TranscodeModel.v / FidelityModel.v tied to the code by the transcode correspondence (hooks)",
         "codec premise (reader reads writer's output back to writer-equivalent calls): observed by the idempotence / round-trip oracle",
         "extraction (ExtrOcamlBasic only), model_driver/driver.ml, harness/src/transcode.rs, session.rs, tools/*.py",
+        "hand-written Gallina model JsonFloatModel.v of serde_json's serialize_f64 and ryu 1.0's pretty::format64 (an executable "
+        "specification in exact integer arithmetic, not ryu's table-driven algorithm), tied to the code by the float-spelling (RY) and the "
+        "JSON->JSON / MessagePack->JSON (JW, MJ) correspondences; F64Proofs.v / JsonFloatTotalProofs.v prove about the MODEL that the reader's "
+        "conversion is correctly rounded and that every finite binary64 has a spelling that reads back",
     ],
     "assumptions": [],
     "explanation": "xt's forwarding is proved; the codecs' self-consistency is an explicit premise observed on every generated document",
